@@ -442,6 +442,16 @@ impl PeerDHTRecord {
         }
     }
 
+    /// Hash of everything `verify_signature` depends on (signable message and signature)
+    fn verification_key(&self) -> Result<Hash> {
+        let message = self.create_signable_message()?;
+        let mut hasher = blake3::Hasher::new();
+        hasher.update(&(message.len() as u64).to_be_bytes());
+        hasher.update(&message);
+        hasher.update(self.signature.as_bytes());
+        Ok(hasher.finalize())
+    }
+
     /// Get a hash of this record for deduplication
     pub fn content_hash(&self) -> Hash {
         let mut hasher = blake3::Hasher::new();
@@ -477,7 +487,14 @@ impl SignatureCache {
 
     /// Verify signature with caching
     pub fn verify_cached(&mut self, record: &PeerDHTRecord) -> Result<()> {
-        let hash = record.content_hash();
+        // The memoised verdict must only ever be served for exactly the record it was computed
+        // for: key the cache on everything verification looks at (the full signable message,
+        // which includes the public key, and the signature) -- not on (id, sequence, timestamp)
+        // alone, which a forged record can share with a genuine one.
+        let hash = match record.verification_key() {
+            Ok(hash) => hash,
+            Err(_) => return record.verify_signature(),
+        };
 
         // Check cache first
         if let Some(&result) = self.cache.get(&hash) {
